@@ -16,6 +16,9 @@ def main(argv):
         if bad:
             print("forbidden constructs:", bad)
             return 1
+        # files regenerated from /repo by translators must exist before the full build
+        import py2coq
+        print("translator:", py2coq.generate_murmur(vlib.REPO, os.path.join(vlib.COQ, "Model", "MurmurGen.v")))
         vlib.build_all(None)
         print("setup ok")
         return 0
